@@ -54,6 +54,13 @@ def col_cases(tier):
         "linecomment-tab0": lambda w: pad_to("// abc\t", "", w, "c"),
         "blockcomment1-tab": lambda w: pad_to("/* a\t", " */", w, "c"),
         "global-eolcomment": lambda w: pad_to("static int\tg_val; // ", "", w, "c"),
+        # comments that hold a tab and do not start on a tab stop (after code, or -- a violation of its own -- after blanks)
+        "global-eolcomment-tab": lambda w: pad_to("static int\tg_val; //\t", "", w, "c"),
+        "global-eolcomment-tab2": lambda w: pad_to("static int\tg_v; // a\t", "", w, "c"),
+        "linecomment-sp1-tab": lambda w: pad_to(" //\t", "", w, "c"),
+        "linecomment-sp2-tab": lambda w: pad_to("  // a\t", "", w, "c"),
+        "linecomment-sp3-tab": lambda w: pad_to("   //\tb\t", "", w, "c"),
+        "blockcomment1-sp1-tab": lambda w: pad_to(" /* a\t", " */", w, "c"),
     }
     for kind, mk in top_kinds.items():
         for w in widths:
@@ -65,12 +72,12 @@ def col_cases(tier):
             text = HDR_C + s + "\n\n" + (F1 % "") + "\n" + F2
             yield (f"col:{kind}:before-first", ".c", text, 13, w)
             if kind in ("linecomment", "blockcomment1", "linecomment-tab1", "linecomment-tab2", "linecomment-tab3",
-                        "linecomment-tab0", "blockcomment1-tab", "proto", "define"):
+                        "linecomment-tab0", "blockcomment1-tab", "proto", "define") or "-sp" in kind:
                 gap = "\n" if kind in ("proto", "define") else ""
                 text = HDR_C + (F1 % "") + "\n" + s + "\n" + gap + F2
                 ln = 12 + (F1 % "").count("\n") + 1 + 1
                 yield (f"col:{kind}:between-functions", ".c", text, ln, w)
-            if kind.startswith(("linecomment", "blockcomment1")):
+            if kind.startswith(("linecomment", "blockcomment1", "global-eolcomment")):
                 base = HDR_C + (F1 % "") + "\n" + F2
                 ln = base.count("\n") + 1
                 yield (f"col:{kind}:last-line-nl", ".c", base + s + "\n", ln, w)
@@ -334,7 +341,7 @@ def judge(task):
             out.append(("missing", f"width {n} line {where}: no LINE_TOO_LONG; errors {errs[:3]}"))
         if n <= 80 and hit:
             out.append(("spurious", f"width {n} line {where}: LINE_TOO_LONG reported"))
-        if n <= 80 and others:
+        if n <= 80 and others and "-sp" not in label and not (label.startswith("col:global-eolcomment") and "last-line" in label):
             out.append(("other-error-at-limit:" + others[0][1], f"width {n}: {others[:3]}"))
         if any(d[1] == "LINE_TOO_LONG" and d[2] != where for d in errs):
             out.append(("wrong-line", f"LINE_TOO_LONG on another line: {errs[:3]}"))
